@@ -118,6 +118,7 @@ impl Model {
             last_changed: None,
             invalid: false,
             invalid_since: None,
+            engine_invalid: false,
             prev_value: None,
             maybe_changed: None,
             gen: None,
@@ -455,6 +456,7 @@ impl Model {
             }
             EngineEv::Invalidate(eid) => {
                 if let Some(&h) = self.by_engine.get(&eid) {
+                    self.nodes[h].engine_invalid = true;
                     if matches!(self.nodes[h].rk, RK::Memo { .. }) {
                         viol!(self, at, "C20", "memo-node-invalidated", "node {} made by a memoised function was invalidated by the engine (it belongs to the scope the memoised function was created in)", h);
                     }
